@@ -166,6 +166,37 @@ theorem C10_events_thrown_sum {σ : Type} (g : Gen σ) (c : Comp) (n : Nat) (t :
     simp only [List.filterMap_cons, h1, List.map_cons, List.sum_cons, ih, h2]
     omega
 
+/-! ## identity: what the kernel hands over is freshly made -/
+
+/-- every object one `event()` call constructs itself — the `ray_paths[i]` / `polarizations[i]` lists,
+one polarisation array per ray solution, one `EmptySignal` per cut solution — is a new object: no id is
+used twice (so no two antennas, solutions or writer arguments share one), and every one of them is
+distinct from everything the same kernel created in earlier calls (ids at or beyond the counter at
+the start of the call).  The harness checks this of the real objects (identity, `shares_memory`,
+mutation probes) after every event. -/
+theorem C10_fresh_objects (h : Heap) (hw : h.WF) (nAnt : Nat) (cuts : List Bool) :
+    (eventHeap h nAnt cuts).WF ∧
+    ∃ created, (eventHeap h nAnt cuts).ids = h.ids ++ created ∧ created.Nodup ∧
+      (∀ x ∈ created, h.next ≤ x ∧ x ∉ h.ids) := by
+  obtain ⟨hw', _, l, hl, hge⟩ := ext_paths cuts h _ (ext_allocN (2 * nAnt) h h (ext_refl h hw))
+  refine ⟨hw', l, hl, ?_, ?_⟩
+  · have := hw'.1
+    rw [hl, List.nodup_append] at this
+    exact this.2.1
+  · intro x hx
+    refine ⟨hge x hx, ?_⟩
+    intro hmem
+    have := hw.2 x hmem
+    have := hge x hx
+    omega
+
+/-- over several calls on one kernel the property is inherited: the heap stays well-formed. -/
+theorem C10_fresh_objects_across_calls (h : Heap) (hw : h.WF) (nAnt : Nat) (evs : List (List Bool)) :
+    (evs.foldl (fun h cuts => eventHeap h nAnt cuts) h).WF := by
+  induction evs generalizing h with
+  | nil => exact hw
+  | cons c r ih => exact ih _ (C10_fresh_objects h hw nAnt c).1
+
 /-! ## interfaces (table regenerated from the source) -/
 
 /-- every call `EventKernel.event` makes on a pluggable collaborator binds, without `TypeError`, to the
@@ -206,6 +237,10 @@ example : loops cEx 3 [p1, p2, p3] =
       [⟨11, 5⟩, ⟨111, 7⟩, ⟨31, 5⟩, ⟨131, 7⟩], [(1, 11), (1, 111), (3, 31), (3, 131)]⟩,
      ⟨[], [], []⟩] := by decide +kernel
 example : ∀ path g, cEx.propGrid path g = shift g path.tof := fun _ _ => rfl
+example : (eventHeap ⟨0, []⟩ 2 [true, false, true]).ids = [0, 1, 2, 3, 4, 5, 6, 7, 8] ∧
+    (eventHeap (eventHeap ⟨0, []⟩ 2 [true, false, true]) 2 [false]).ids.length = 14 ∧
+    (⟨0, []⟩ : Heap).WF := by
+  refine ⟨by decide, by decide, ⟨by simp, by simp⟩⟩
 example : skip (.pair (1/2) (1/2)) ⟨4, some 0, some 1, none⟩ = true ∧ skip (.scalar (1/10)) ⟨4, some 1, some 0, none⟩ = true ∧
     skip (.pair (1/2) (1/2)) ⟨4, none, some (1/2), none⟩ = false ∧ skip (.scalar 0) ⟨4, some 0, none, none⟩ = false := by
   decide +kernel
